@@ -43,6 +43,11 @@ type Case struct {
 	Perturb   uint64      `json:"perturb"` // seed of the schedule perturbation, 0 = none
 	SkipSort  bool        `json:"skip_sort"`
 	PauseUs   int         `json:"pause_us"` // writers pause this long between bulks (lets the maintenance loop tick)
+	// Retention: 0 = off; otherwise the total size limit is this many fraction sizes, so that
+	// size-based retention removes the oldest fractions while readers hold fraction lists.
+	// The end-of-run completeness checks are then replaced by validity checks (documents of
+	// removed fractions are legitimately gone).
+	Retention int `json:"retention,omitempty"`
 }
 
 func noise(seed, n int) string {
@@ -100,6 +105,7 @@ func genCase(t *rapid.T) Case {
 		c.Readers = append(c.Readers, qs)
 	}
 	c.FracSize = rapid.SampledFrom([]uint64{2 << 10, 6 << 10, 20 << 10}).Draw(t, "fracsize")
+	c.Retention = rapid.SampledFrom([]int{0, 0, 0, 8, 12}).Draw(t, "retention")
 	c.MaintMs = rapid.SampledFrom([]int{5, 10, 20}).Draw(t, "maint")
 	c.CacheSize = rapid.SampledFrom([]uint64{16 << 10, 256 << 10, 64 << 20}).Draw(t, "cache")
 	c.Procs = rapid.SampledFrom([]int{16, 2, 4}).Draw(t, "procs")
@@ -149,6 +155,22 @@ func runCase(c Case) (evid.Result, error) {
 	}
 	dir := evid.ScratchDir("c07")
 	opts := harness.StoreOpts{FracSize: c.FracSize, MaintenanceDelay: c.MaintMs, CacheSize: c.CacheSize, SkipSortDocs: c.SkipSort, Workers: 8}
+	if c.Retention > 0 {
+		// a sane limit: several times what one fraction can grow to (a fraction is rotated when
+		// it exceeds FracSize, i.e. it can hold FracSize plus one whole bulk, and its meta and
+		// index files are counted as well) - the fraction being written is never removed
+		maxBulk := uint64(0)
+		for w := range c.Writers {
+			for _, b := range c.Writers[w] {
+				n := uint64(0)
+				for _, di := range b {
+					n += uint64(len(c.Docs[di].Body)) + 64*uint64(len(c.Docs[di].Toks)+1)
+				}
+				maxBulk = max(maxBulk, n)
+			}
+		}
+		opts.TotalSize = uint64(c.Retention) * (c.FracSize + maxBulk*uint64(len(c.Writers)))
+	}
 	st, err := harness.OpenStore(dir, opts)
 	if err != nil {
 		return res, err
@@ -238,6 +260,9 @@ func runCase(c Case) (evid.Result, error) {
 						return
 					}
 					for j, id := range ids {
+						if c.Retention > 0 && len(docs[j]) == 0 {
+							continue // its fraction may have been removed between the search and the fetch
+						}
 						if !model.EqualBytes(docs[j], byID[id].Body) {
 							fe.set(evid.Failf("fetch-differs", "reader %d: id %v just returned by %q fetched as %d bytes %.40q, want %d bytes %.40q", r, id, text, len(docs[j]), docs[j], len(byID[id].Body), byID[id].Body))
 							return
@@ -289,6 +314,36 @@ func runCase(c Case) (evid.Result, error) {
 	}
 	st = st2
 	defer func() { closed = true; st.Close() }()
+	if c.Retention > 0 {
+		// what is still served must be submitted documents with their bytes; what retention
+		// removed is gone
+		all := &model.SearchReq{Q: model.All(), From: 0, To: gen.BaseMID * 2, Limit: 1 << 20, WithTotal: true}
+		qpr, err := st.Search(all, "*", nil)
+		if err != nil {
+			return res, evid.Failf("search-error", "final *: %v", err)
+		}
+		got := harness.FromSeqIDs(qpr.IDs)
+		for _, id := range got {
+			if _, ok := byID[id]; !ok {
+				return res, evid.Failf("foreign-id", "final * lists %v which was never submitted", id)
+			}
+		}
+		var docs [][]byte
+		if len(got) > 0 {
+			if docs, err = st.Fetch(harness.ToSeqIDs(got)); err != nil {
+				return res, evid.Failf("fetch-error", "final: %v", err)
+			}
+		}
+		for j, id := range got {
+			if !model.EqualBytes(docs[j], byID[id].Body) {
+				return res, evid.Failf("final-fetch-differs", "id %v: %d bytes, want %d", id, len(docs[j]), len(byID[id].Body))
+			}
+		}
+		res.Evals += int(searches.Load())
+		res.NonTrivial = nfr >= 2 && searches.Load() > 0
+		res.Labels = append(res.Labels, "retention-on", fmt.Sprintf("served-at-end:%d%%", 10*(10*len(got)/max(1, len(c.Docs)))))
+		return res, nil
+	}
 	corpus := model.Corpus(c.Docs)
 	all := &model.SearchReq{Q: model.All(), From: 0, To: gen.BaseMID * 2, Limit: 1 << 20, WithTotal: true}
 	qpr, err := st.Search(all, "*", nil)
